@@ -168,20 +168,20 @@ PROPS = {
 RULE_ADDENDA = {
     "C02": "A quarter of the runs are 'twins' runs: every registration is a closure of one of two function literals (same code pointer, own uid), 1-3 tasks subscribe / unsubscribe / publish, and the oracle is stated per function group (each successful Unsubscribe removes exactly one registration, a fired Once retires itself only; per-publish delivery bounds and HandlerCount bounds valid under every linearization). One run in eight starts with a crowd of 9-16 registrations of which the tasks unsubscribe 3-8. A third of the runs publish the events whose id is divisible by 3 through an interface-typed value (Publish[any]).",
     "C03": "Upcasters are registered under the persisted names of the scenario's own three event types; a sequential preamble stores events and registers upcasters so that concurrent replays walk real chains; resumable subscriptions on the active types; direct SaveOffset / LoadOffset operations. pubburst operations publish 2-3 events under one context, cancel it straight afterwards and publish a live event behind them; about a third of the registered upcasters fail; in a quarter of the persistent runs 3-6 further tasks each open a resumable subscription (ids of their own) to the first active type at the same time. The re-entering hooks include a context-aware after-publish hook.",
-    "C04": "In a quarter of the runs every Once handler panics at the end of its invocation; a canceller handler subscribed first cancels chosen publishes mid-way. In a third of the runs a further task subscribes 1-3 handlers whose filter accepts nothing (Once and ordinary) while the publishers run. A quarter of the publishes go through Publish[any]. In a quarter of the runs an extra Once handler with an accept-all filter is subscribed first; for chosen publishes of its type that filter cancels the publish context (nothing may run for such a publish, and the handler must survive it).",
+    "C04": "In a quarter of the runs every Once handler panics at the end of its invocation; a canceller handler subscribed first cancels chosen publishes mid-way. In a third of the runs a further task subscribes 1-3 handlers whose filter accepts nothing (Once and ordinary) while the publishers run. A quarter of the publishes go through Publish[any]. In a quarter of the runs an extra Once handler with an accept-all filter is subscribed first; for chosen publishes of its type that filter cancels the publish context (nothing may run for such a publish, and the handler must survive it). Filters include the same predicates declared over an interface type (WithFilter[any]).",
     "C05": "Eight panic-value kinds incl. a typed-nil pointer error, a typed-nil Stringer and an error whose Error() panics; optional Observability; publish through an interface-typed value; panic handler by option or setter, optionally re-entering the bus. One run in five registers its handlers through SubscribeWithReplay on a persistent bus; in a quarter of the others publishes carry a cancellable context which a panicking invocation cancels before it panics (deliveries of that event are then indeterminate: none more often than published, every panic still reported once).",
     "C06": "Registrations may also be Sequential and filtered (even / odd ids), so several Async+Sequential handlers of one type see different event counts.",
     "C07": "Cancellation of chosen publishes by a synchronous neighbour or by a task of its own 0-40 decision points after the publish started; a first invocation 40 times longer than the others (a queue builds up); one run in six uses resumable Sequential subscriptions (SubscribeWithReplay) made while publishers run, checked for overlap only. One run in twenty is a deep run: one publisher, 130-400 events queued behind a first invocation that lasts until nearly all of them are published. In a third of the runs the context a context-aware handler was given (for a publish that is never cancelled) is kept and used for later publishes with odd ids by any publisher task.",
-    "C10": "A quarter of the SQLite / durable-streams runs open the store with its optional instrumentation (metrics hook whose callbacks are decision points, logger, 250 ms busy timeout, no auto-migration on reopen). Explicit cases: 1025- and 2100-event histories with reads and streams resumed around positions 1023-1025; generated histories include appends with an already cancelled context and, on file-based SQLite, a second handle on the same file. Zones include two whose offset has seconds (+00:57:44, -00:19:32).",
+    "C10": "A quarter of the SQLite / durable-streams runs open the store with its optional instrumentation (metrics hook whose callbacks are decision points, logger, 250 ms busy timeout, no auto-migration on reopen). Explicit cases: 1025- and 2100-event histories with reads and streams resumed around positions 1023-1025; generated histories include appends with an already cancelled context and, on file-based SQLite, a second handle on the same file. Zones include two whose offset has seconds (+00:57:44, -00:19:32). append-other operations keep writing to the separately created second store during the history; at the end it must read back exactly its own events (memory and SQLite).",
     "C11": "Transport faults incl. a GET answered after the client's deadline; callbacks that cancel and return an error in one call; a quarter of the SQLite / durable-streams runs with store instrumentation options. Explicit cases include logs of 1023 / 1024 / 1025 / 2049 / 4096 / 10001 and 16 500 events; injected read failures and failing stream rows come in two flavours, an opaque error and one that wraps io.EOF. A third of the logs are odd: neighbouring timestamps swapped and / or every fifth event's data the document null and every seventh event's type empty; events are identified by their timestamp.",
-    "C12": "SQL-level failure of one chosen write to the subscription table; SQLite runs optionally with store instrumentation options and no auto-migration on reopen. A third of the generations are sub-first (the publisher starts when the subscriber's catch-up is done); offsets optionally live in a separate subscription store; explicit cases: 160 four-generation restart histories (subscribe+publish, writer-only generation, fresh bus that catches up and whose first or last append fails or loses its acknowledgement, or a second id joins; resume) on MemoryStore and SQLite. Subscription ids differ only in letter case ('Sub-x', 'sub-x'). A quarter of the runs have a 20 ms persistence timeout, publishers with 60 ms sleep steps, and offset operations that refuse a dead context; the bus calling SaveOffset / LoadOffset with a dead context while the subscriber's context is live is a violation. With a single subscription, a quarter of the runs have a handler that publishes one follow-up event of the same shape when it is handed an event with id = 1 mod 3 by live delivery (at most 6 follow-ups). Every PVal handed to a resumable subscription is compared as a whole with what decoding the stored event yields.",
+    "C12": "SQL-level failure of one chosen write to the subscription table; SQLite runs optionally with store instrumentation options and no auto-migration on reopen. A third of the generations are sub-first (the publisher starts when the subscriber's catch-up is done); offsets optionally live in a separate subscription store; explicit cases: 224 four-generation restart histories (one or two event shapes) (subscribe+publish, writer-only generation, fresh bus that catches up and whose first or last append fails or loses its acknowledgement, or a second id joins; resume) on MemoryStore and SQLite. Subscription ids differ only in letter case ('Sub-x', 'sub-x'). A quarter of the runs have a 20 ms persistence timeout, publishers with 60 ms sleep steps, and offset operations that refuse a dead context; the bus calling SaveOffset / LoadOffset with a dead context while the subscriber's context is live is a violation. With a single subscription, a quarter of the runs have a handler that publishes one follow-up event of the same shape when it is handed an event with id = 1 mod 3 by live delivery (at most 6 follow-ups). Every PVal handed to a resumable subscription is compared as a whole with what decoding the stored event yields.",
     "C13": "Error handler by option or by SetPersistenceErrorHandler; WithStore first or last among the options; publishes optionally carry a context with its own 10 s deadline; invalid json.RawMessage events.",
     "C16": "Registrations optionally given as WithUpcast options; after every sequential history one event of each name is replayed with upcasting and the resulting types are compared with the model graph. Explicit cases: a chain of 1200 types and a hub with 1200 targets followed by the registration that would close the loop; a typed upcaster registered before the raw ones whose source type is cleared after them.",
     "C17": "One run in five uses a linear chain of 8-40 steps with the failure anywhere; upcasters optionally by WithUpcast option, error handler by option or setter, optionally a registry history (decoy upcaster registered, then ClearUpcasts / ClearUpcastsForType) before the registrations under test. Optionally one source type of the scenario itself is cleared (ClearUpcastsForType) after all registrations. The typed source carries an interface-typed member with numbers (the upcaster records the dynamic type it was given); a third of the runs hide the store's ReadStream (paged replay); in a quarter the callback cancels the replay's context at one of its first four calls - events handed over afterwards must still be whole-chain results. A quarter of the failure-free runs have a second task replaying with upcasting at the same time; both replays must see whole-chain results.",
-    "C18": "Two more collections with explicit entity type names containing the key separator ('<SUser's type name>/admin', 'shop/order'). The reset callback records the number of entities it finds (must be 0); in a third of the runs every resumed session first registers the same collections again.",
+    "C18": "Two more collections with explicit entity type names containing the key separator ('<SUser's type name>/admin', 'shop/order'). The reset callback records the number of entities it finds (must be 0); in a third of the runs every resumed session first registers the same collections again. A third of the UpdateWithOldValue messages carry the new value as old value.",
     "C19": "Raw inputs incl. malformed control headers alone and as stray members of change messages; 'hdr' corruption adds or replaces one or two header members (some ill-typed) of a valid message; the decoder model reads the protocol's typed members. Two runs in three (in-memory and SQLite stores) also feed a second materializer through Materializer.Replay in two legs - from the start when the first Split messages are stored, then from its own LastOffset - and compare it leg by leg with one fed event by event (state, LastOffset, error exactly where Apply rejects); one run in six has 10-30 messages; SQLite also as ':memory:' and with batched streaming (2 / 5). Slice and map entities are nil in a tenth of the messages (their encoding is the document null). A third of the runs use strict-schema materializers (an unknown entity type is then rejected, leaving state and LastOffset unchanged).",
     "C20": "Nested publishes from inside handlers; unencodable events on persistent buses; panic values of eight kinds. One registration in six empties the registry (Clear[T] or ClearAll) on its first invocation.",
-    "C01": "One run in eight starts with a crowd: 9-20 registrations on one type (most of them Once, some filtered), up to 8 of them unsubscribed again.",
+    "C01": "One run in eight starts with a crowd: 9-20 registrations on one type (most of them Once, some filtered), up to 8 of them unsubscribed again. Filters include the same predicates declared over an interface type (WithFilter[any]).",
     "C08": "A third of the runs have a second publisher task; in a quarter of the single-publisher runs a Once handler and a handler that calls Clear[T] or ClearAll are subscribed behind all others just before the last publish. Half of the cancellable contexts are cancelled with a cause of the caller's own (WithCancelCause) or - for publishes dead before the call - are dead because their deadline has passed; the publish context also carries four values under plain string keys ('event.type', 'async', 'position', 'request-id') that hooks and context-aware handlers must see unchanged.",
     "C09": "A quarter of the runs use a store that ignores its context and takes 1 or 20 ms per Append, next to a 5 ms persistence timeout; with the in-memory store and several publisher tasks, a third of the runs put every other publisher on a second bus created with WithStore of the same store. Event shapes include one whose JSON encoding has an exact length (4096, 32768, 65535, 65536, 65537 or 262144 bytes).",
 }
